@@ -149,10 +149,11 @@ theorem gmatch_complete (stop : Char) : ∀ (toks : List GTok) (b : List (Str ×
 
 /-! ### first match over the route list -/
 
-theorem gFirst_route {rs : List GRoute} {req : Req} {t m : Str} {ps : List (Str × Str)}
-    (h : gFirst rs req = .route t m ps) :
+theorem gFirst_route {rs : List GRoute} {req : Req} {t m : Str} {ps : List (Str × Str)} {sv : SrvRef}
+    (h : gFirst rs req = .route t m ps sv) :
     ∃ pre r post b, rs = pre ++ r :: post ∧ (∀ r' ∈ pre, gRouteMatch r' req = none) ∧
-      gRouteMatch r req = some b ∧ r.template = t ∧ m = req.method ∧ req.method ∈ r.methods := by
+      gRouteMatch r req = some b ∧ r.template = t ∧ m = req.method ∧ req.method ∈ r.methods ∧ r.srv.ref = sv ∧
+      ps = mapSetAll (mapSetAll [] b) (match r.srv.upd with | some kv => [kv] | none => []) := by
   induction rs with
   | nil => simp [gFirst] at h
   | cons r rs ih =>
@@ -162,7 +163,7 @@ theorem gFirst_route {rs : List GRoute} {req : Req} {t m : Str} {ps : List (Str 
       split at h
       · rename_i hm
         simp only [Outcome.route.injEq] at h
-        exact ⟨[], r, rs, b, rfl, by simp, hb, h.1, h.2.1.symm, hm⟩
+        exact ⟨[], r, rs, b, rfl, by simp, hb, h.1, h.2.1.symm, hm, h.2.2.2, h.2.2.1.symm⟩
       · simp at h
     · rename_i hn
       obtain ⟨pre, r0, post, b, e, h1, h2, h3, h4, h5⟩ := ih h
@@ -190,7 +191,7 @@ theorem gFirst_notFound_iff (rs : List GRoute) (req : Req) :
 theorem gFirst_complete {rs : List GRoute} {req : Req}
     (hex : ∃ r ∈ rs, gRouteMatch r req ≠ none)
     (hall : ∀ r ∈ rs, gRouteMatch r req ≠ none → req.method ∈ r.methods) :
-    ∃ t ps, gFirst rs req = .route t req.method ps := by
+    ∃ t ps sv, gFirst rs req = .route t req.method ps sv := by
   induction rs with
   | nil => simp at hex
   | cons r rs ih =>
@@ -312,35 +313,436 @@ theorem gRouteMatch_path {r : GRoute} {req : Req} {b : List (Str × Str)} (h : g
   · simp at h
   · rename_i pb hpb; exact ⟨pb, hpb⟩
 
-def ORel (o1 o2 : Option GRoute) : Prop :=
-  ∀ r1 r2, o1 = some r1 → o2 = some r2 → nvars r1.template ≤ nvars r2.template
+/-! ### the route list built by the loop of NewRouter -/
 
-theorem pairwise_routes {d : Doc} {rs : List GRoute} (h : gorillaRoutes d = some rs) :
-    rs.Pairwise (fun a b => nvars a.template ≤ nvars b.template) := by
-  unfold gorillaRoutes at h
+theorem allSome_append {α} : ∀ (l1 l2 : List (Option α)),
+    allSome (l1 ++ l2) = (match allSome l1, allSome l2 with | some a, some b => some (a ++ b) | _, _ => none) := by
+  intro l1
+  induction l1 with
+  | nil => intro l2; simp only [List.nil_append, allSome]; cases allSome l2 <;> simp
+  | cons o os ih =>
+    intro l2
+    cases o with
+    | none => simp [allSome]
+    | some a =>
+      simp only [List.cons_append, allSome, ih]
+      cases allSome os <;> cases allSome l2 <;> simp
+
+theorem allSome_mem {α} {l : List (Option α)} {rs : List α} (h : allSome l = some rs) {r : α} :
+    r ∈ rs ↔ some r ∈ l := by
+  rw [allSome_eq h]; simp
+
+theorem newSrv_ref {url : Str} {s : Server} {upd : Option (Str × Str)} {ref : SrvRef} {g : GSrv}
+    (h : newSrv url s upd ref = some g) : g.ref = ref ∧ g.upd = upd := by
+  unfold newSrv at h
+  split at h
+  · split at h
+    · simp at h
+    · simp only [Option.some.injEq] at h; subst h; exact ⟨rfl, rfl⟩
+  · simp only [Option.some.injEq] at h; subst h; exact ⟨rfl, rfl⟩
+
+theorem gMakeServer_ref {ref : SrvRef} {s : Server} {g : GSrv} (h : gMakeServer ref s = some g) : g.ref = ref := by
+  unfold gMakeServer at h
+  split at h
+  · split at h
+    · simp at h
+    · exact (newSrv_ref h).1
+  · split at h
+    · split at h
+      · simp at h
+      · split at h
+        · simp at h
+        · exact (newSrv_ref h).1
+    · exact (newSrv_ref h).1
+
+/-- a compiled server comes from the declared server with the same index -/
+theorem gMakeServersFrom_mem {mk : Nat → SrvRef} : ∀ {l : List Server} {j : Nat} {gs : List GSrv},
+    gMakeServersFrom mk j l = some gs → ∀ g ∈ gs, ∃ i s, l[i]? = some s ∧ gMakeServer (mk (j + i)) s = some g := by
+  intro l
+  induction l with
+  | nil => intro j gs h g hg; simp [gMakeServersFrom] at h; subst h; simp at hg
+  | cons s rest ih =>
+    intro j gs h g hg
+    simp only [gMakeServersFrom] at h
+    split at h
+    · rename_i a b ha hb
+      simp only [Option.some.injEq] at h
+      subst h
+      simp only [List.mem_cons] at hg
+      rcases hg with rfl | hg
+      · exact ⟨0, s, by simp, by simpa using ha⟩
+      · obtain ⟨i, s', h1, h2⟩ := ih hb g hg
+        exact ⟨i + 1, s', by simpa using h1, by rw [← h2]; congr 2; omega⟩
+    · simp at h
+
+/-- … and every declared server is compiled (in order) -/
+theorem gMakeServersFrom_get {mk : Nat → SrvRef} : ∀ {l : List Server} {j : Nat} {gs : List GSrv},
+    gMakeServersFrom mk j l = some gs → ∀ i s, l[i]? = some s → ∃ g ∈ gs, gMakeServer (mk (j + i)) s = some g := by
+  intro l
+  induction l with
+  | nil => intro j gs _ i s hi; simp at hi
+  | cons s0 rest ih =>
+    intro j gs h i s hi
+    simp only [gMakeServersFrom] at h
+    split at h
+    · rename_i a b ha hb
+      simp only [Option.some.injEq] at h
+      subst h
+      cases i with
+      | zero => simp at hi; subst hi; exact ⟨a, by simp, by simpa using ha⟩
+      | succ i =>
+        simp at hi
+        obtain ⟨g, hg, h2⟩ := ih hb i s hi
+        exact ⟨g, by simp [hg], by rw [← h2]; congr 2; omega⟩
+    · simp at h
+
+/-- what `makeServers` returns: the placeholder for an empty list, otherwise the compiled declared servers -/
+def CompiledFrom (mk : Nat → SrvRef) (l : List Server) (g : GSrv) : Prop :=
+  (l = [] ∧ g = noSrv) ∨ ∃ i s, l[i]? = some s ∧ gMakeServer (mk i) s = some g
+
+theorem gMakeServers_mem {mk : Nat → SrvRef} {l : List Server} {gs : List GSrv}
+    (h : gMakeServers mk l = some gs) {g : GSrv} (hg : g ∈ gs) : CompiledFrom mk l g := by
+  unfold gMakeServers at h
   split at h
   · simp at h
-  · rename_i srvs _
-    have e := allSome_eq h
-    have hp : (rs.map some).Pairwise ORel := by
-      rw [← e, List.pairwise_flatMap]
+  · rename_i h0
+    simp only [Option.some.injEq] at h
+    subst h
+    simp only [List.mem_singleton] at hg
+    cases l with
+    | nil => exact Or.inl ⟨rfl, hg⟩
+    | cons s rest =>
+      simp only [gMakeServersFrom] at h0
+      split at h0 <;> simp at h0
+  · rename_i a b h0
+    simp only [Option.some.injEq] at h
+    subst h
+    obtain ⟨i, s, h1, h2⟩ := gMakeServersFrom_mem h0 g hg
+    exact Or.inr ⟨i, s, h1, by simpa using h2⟩
+
+theorem gMakeServers_get {mk : Nat → SrvRef} {l : List Server} {gs : List GSrv}
+    (h : gMakeServers mk l = some gs) {g : GSrv} (hg : CompiledFrom mk l g) : g ∈ gs := by
+  unfold gMakeServers at h
+  split at h
+  · simp at h
+  · rename_i h0
+    simp only [Option.some.injEq] at h
+    subst h
+    rcases hg with ⟨_, rfl⟩ | ⟨i, s, h1, h2⟩
+    · simp
+    · obtain ⟨g', hg', h3⟩ := gMakeServersFrom_get h0 i s h1
+      simp at hg'
+  · rename_i a b h0
+    simp only [Option.some.injEq] at h
+    subst h
+    rcases hg with ⟨rfl, _⟩ | ⟨i, s, h1, h2⟩
+    · simp [gMakeServersFrom] at h0
+    · obtain ⟨g', hg', h3⟩ := gMakeServersFrom_get h0 i s h1
+      simp only [Nat.zero_add] at h3
+      rw [h2] at h3
+      cases h3
+      exact hg'
+
+/-- the compiled servers that apply to a path item after the repair: its own when it declares some, else the document's -/
+def EffSrv (d : Doc) (pd : PathDecl) (g : GSrv) : Prop :=
+  if pd.servers = [] then CompiledFrom SrvRef.doc d.servers g else CompiledFrom (SrvRef.path pd.template) pd.servers g
+
+/-- the compiled servers the code as it is can attach to a route: any server declared anywhere in the document -/
+def DeclSrv (d : Doc) (g : GSrv) : Prop :=
+  CompiledFrom SrvRef.doc d.servers g ∨ ∃ q ∈ d.paths, q.servers ≠ [] ∧ CompiledFrom (SrvRef.path q.template) q.servers g
+
+theorem gLoop_cons {leak : Bool} {ds cur : List GSrv} {p : PathDecl} {ps : List PathDecl} {rs : List GRoute}
+    (h : gLoop leak ds cur (p :: ps) = some rs) :
+    ∃ use a b, (if p.servers = [] then some (if leak then cur else ds) else gMakeServers (SrvRef.path p.template) p.servers) = some use ∧
+      allSome (use.map (mkRoute p)) = some a ∧ gLoop leak ds use ps = some b ∧ rs = a ++ b := by
+  simp only [gLoop] at h
+  split at h
+  · simp at h
+  · rename_i use hu
+    split at h
+    · rename_i a b ha hb
+      simp only [Option.some.injEq] at h
+      exact ⟨use, a, b, hu, ha, hb, h.symm⟩
+    · simp at h
+
+/-- every route of the list comes from a path item of the list and a compiled server -/
+theorem gLoop_mem {leak : Bool} {ds : List GSrv} : ∀ {ps : List PathDecl} {cur : List GSrv} {rs : List GRoute},
+    gLoop leak ds cur ps = some rs → ∀ r ∈ rs, ∃ pd ∈ ps, ∃ g, mkRoute pd g = some r ∧
+      (g ∈ cur ∨ g ∈ ds ∨ ∃ q ∈ ps, q.servers ≠ [] ∧ ∃ l, gMakeServers (SrvRef.path q.template) q.servers = some l ∧ g ∈ l) := by
+  intro ps
+  induction ps with
+  | nil => intro cur rs h r hr; simp [gLoop] at h; subst h; simp at hr
+  | cons p ps ih =>
+    intro cur rs h r hr
+    obtain ⟨use, a, b, hu, ha, hb, rfl⟩ := gLoop_cons h
+    simp only [List.mem_append] at hr
+    rcases hr with hr | hr
+    · have := (allSome_mem ha).1 hr
+      simp only [List.mem_map] at this
+      obtain ⟨g, hg, hm⟩ := this
+      refine ⟨p, by simp, g, hm, ?_⟩
+      split at hu
+      · simp only [Option.some.injEq] at hu
+        subst hu
+        cases leak
+        · exact Or.inr (Or.inl (by simpa using hg))
+        · exact Or.inl (by simpa using hg)
+      · rename_i hne
+        exact Or.inr (Or.inr ⟨p, by simp, hne, use, hu, hg⟩)
+    · obtain ⟨pd, hpd, g, hm, hg⟩ := ih hb r hr
+      refine ⟨pd, by simp [hpd], g, hm, ?_⟩
+      rcases hg with hg | hg | ⟨q, hq, hne, l, hl, hgl⟩
+      · split at hu
+        · simp only [Option.some.injEq] at hu
+          subst hu
+          cases leak
+          · exact Or.inr (Or.inl (by simpa using hg))
+          · exact Or.inl (by simpa using hg)
+        · rename_i hne
+          exact Or.inr (Or.inr ⟨p, by simp, hne, use, hu, hg⟩)
+      · exact Or.inr (Or.inl hg)
+      · exact Or.inr (Or.inr ⟨q, by simp [hq], hne, l, hl, hgl⟩)
+
+/-- after the repair: the routes of the list are exactly (path item of the list) × (the compiled servers that apply to it) -/
+theorem gLoop_fixed_mem {ds : List GSrv} : ∀ {ps : List PathDecl} {cur : List GSrv} {rs : List GRoute},
+    gLoop false ds cur ps = some rs → ∀ r, r ∈ rs ↔ ∃ pd ∈ ps, ∃ g, mkRoute pd g = some r ∧
+      (if pd.servers = [] then g ∈ ds else ∃ l, gMakeServers (SrvRef.path pd.template) pd.servers = some l ∧ g ∈ l) := by
+  intro ps
+  induction ps with
+  | nil => intro cur rs h r; simp [gLoop] at h; subst h; simp
+  | cons p ps ih =>
+    intro cur rs h r
+    obtain ⟨use, a, b, hu, ha, hb, rfl⟩ := gLoop_cons h
+    simp only [List.mem_append, List.mem_cons, exists_eq_or_imp, ← ih hb r, allSome_mem ha, List.mem_map]
+    apply or_congr_left
+    constructor
+    · rintro ⟨g, hg, hm⟩
+      refine ⟨g, hm, ?_⟩
+      split at hu
+      · simp only [Bool.false_eq_true, if_false, Option.some.injEq] at hu
+        subst hu
+        rename_i he; simp [he, hg]
+      · rename_i hne
+        simp only [hne, if_false]
+        exact ⟨use, hu, hg⟩
+    · rintro ⟨g, hm, hg⟩
+      refine ⟨g, ?_, hm⟩
+      split at hu
+      · simp only [Bool.false_eq_true, if_false, Option.some.injEq] at hu
+        subst hu
+        rename_i he; simpa [he] using hg
+      · rename_i hne
+        simp only [hne, if_false] at hg
+        obtain ⟨l, hl, hgl⟩ := hg
+        rw [hu] at hl
+        cases hl
+        exact hgl
+
+/-- a route list was built: the servers of every path item that declares some compiled -/
+theorem gLoop_compiles {leak : Bool} {ds : List GSrv} : ∀ {ps : List PathDecl} {cur : List GSrv} {rs : List GRoute},
+    gLoop leak ds cur ps = some rs → ∀ pd ∈ ps, pd.servers ≠ [] →
+      ∃ l, gMakeServers (SrvRef.path pd.template) pd.servers = some l := by
+  intro ps
+  induction ps with
+  | nil => intro cur rs _ pd hpd; simp at hpd
+  | cons p ps ih =>
+    intro cur rs h pd hpd hne
+    obtain ⟨use, a, b, hu, ha, hb, rfl⟩ := gLoop_cons h
+    simp only [List.mem_cons] at hpd
+    rcases hpd with rfl | hpd
+    · simp only [hne, if_false] at hu
+      exact ⟨use, hu⟩
+    · exact ih hb pd hpd hne
+
+theorem gLoop_pairwise {leak : Bool} {ds : List GSrv} : ∀ {ps : List PathDecl} {cur : List GSrv} {rs : List GRoute},
+    ps.Pairwise (fun a b => nvars a.template ≤ nvars b.template) → gLoop leak ds cur ps = some rs →
+    rs.Pairwise (fun a b => nvars a.template ≤ nvars b.template) := by
+  intro ps
+  induction ps with
+  | nil => intro cur rs _ h; simp [gLoop] at h; subst h; simp
+  | cons p ps ih =>
+    intro cur rs hp h
+    obtain ⟨use, a, b, hu, ha, hb, rfl⟩ := gLoop_cons h
+    rw [List.pairwise_cons] at hp
+    have hat : ∀ r ∈ a, r.template = p.template := by
+      intro r hr
+      have := (allSome_mem ha).1 hr
+      simp only [List.mem_map] at this
+      obtain ⟨g, _, hm⟩ := this
+      exact (mkRoute_some hm).1
+    rw [List.pairwise_append]
+    refine ⟨?_, ih hp.2 hb, ?_⟩
+    · apply List.pairwise_of_forall_mem_list
+      intro r1 h1 r2 h2
+      rw [hat r1 h1, hat r2 h2]
+      exact Nat.le_refl _
+    · intro r1 h1 r2 h2
+      obtain ⟨pd, hpd, g, hm, _⟩ := gLoop_mem hb r2 h2
+      rw [hat r1 h1, (mkRoute_some hm).1]
+      exact hp.1 pd hpd
+
+theorem pairwise_routes {leak : Bool} {d : Doc} {rs : List GRoute} (h : gorillaRoutesL leak d = some rs) :
+    rs.Pairwise (fun a b => nvars a.template ≤ nvars b.template) := by
+  unfold gorillaRoutesL at h
+  split at h
+  · simp at h
+  · exact gLoop_pairwise (pairwise_inMatchingOrder d.paths) h
+
+/-- the loop result does not depend on the carried variable once the leak is repaired -/
+theorem gLoop_fixed_cur {ds : List GSrv} : ∀ (ps : List PathDecl) (cur cur' : List GSrv),
+    gLoop false ds cur ps = gLoop false ds cur' ps := by
+  intro ps
+  induction ps with
+  | nil => intro cur cur'; simp [gLoop]
+  | cons p ps ih =>
+    intro cur cur'
+    simp only [gLoop, Bool.false_eq_true, if_false]
+
+/-- the leak is invisible unless, in matching order, a path item with servers precedes one without -/
+theorem gLoop_leak_eq {ds : List GSrv} : ∀ (ps : List PathDecl) (cur : List GSrv),
+    (cur = ds ∨ ∀ q ∈ ps, q.servers ≠ []) → leakShape ps = false → gLoop true ds cur ps = gLoop false ds cur ps := by
+  intro ps
+  induction ps with
+  | nil => intro cur _ _; simp [gLoop]
+  | cons p ps ih =>
+    intro cur hinv hsh
+    simp only [leakShape, Bool.or_eq_false_iff, Bool.and_eq_false_iff] at hsh
+    obtain ⟨h1, h2⟩ := hsh
+    by_cases hp : p.servers = []
+    · have hc : cur = ds := by
+        rcases hinv with h | h
+        · exact h
+        · exact absurd hp (h p (by simp))
+      subst hc
+      simp only [gLoop, hp, if_true, Bool.false_eq_true, if_false]
+      rw [ih cur (Or.inl rfl) h2]
+    · have hall : ∀ q ∈ ps, q.servers ≠ [] := by
+        rcases h1 with h | h
+        · simp [hp] at h
+        · intro q hq he
+          have : (ps.any fun q => decide (q.servers = [])) = true := by
+            simp only [List.any_eq_true, decide_eq_true_eq]; exact ⟨q, hq, he⟩
+          rw [this] at h; simp at h
+      simp only [gLoop, hp, if_false]
+      cases hms : gMakeServers (SrvRef.path p.template) p.servers with
+      | none => rfl
+      | some use =>
+        simp only
+        rw [ih use (Or.inr hall) h2]
+
+theorem gorillaRoutes_leak_eq (d : Doc) (h : leakShape (inMatchingOrder d.paths) = false) :
+    gorillaRoutesL true d = gorillaRoutesL false d := by
+  unfold gorillaRoutesL
+  cases gMakeServers SrvRef.doc d.servers with
+  | none => rfl
+  | some ds => exact gLoop_leak_eq _ ds (Or.inl rfl) h
+
+theorem gLoop_fixed_built {ds : List GSrv} : ∀ {ps : List PathDecl} {cur : List GSrv} {rs : List GRoute},
+    gLoop false ds cur ps = some rs → ∀ pd ∈ ps, ∀ g,
+      (if pd.servers = [] then g ∈ ds else ∃ l, gMakeServers (SrvRef.path pd.template) pd.servers = some l ∧ g ∈ l) →
+      ∃ r, mkRoute pd g = some r := by
+  intro ps
+  induction ps with
+  | nil => intro cur rs _ pd hpd; simp at hpd
+  | cons p ps ih =>
+    intro cur rs h pd hpd g hg
+    obtain ⟨use, a, b, hu, ha, hb, rfl⟩ := gLoop_cons h
+    simp only [List.mem_cons] at hpd
+    rcases hpd with rfl | hpd
+    · have hgu : g ∈ use := by
+        split at hu
+        · rename_i he
+          simp only [Bool.false_eq_true, if_false, Option.some.injEq] at hu
+          subst hu
+          simpa [he] using hg
+        · rename_i he
+          simp only [he, if_false] at hg
+          obtain ⟨l, hl, hgl⟩ := hg
+          rw [hu] at hl
+          cases hl
+          exact hgl
+      have e := allSome_eq ha
+      have : mkRoute pd g ∈ a.map some := by rw [← e]; exact List.mem_map.2 ⟨g, hgu, rfl⟩
+      simp only [List.mem_map] at this
+      obtain ⟨r, _, hr⟩ := this
+      exact ⟨r, hr.symm⟩
+    · exact ih hb pd hpd g hg
+
+/-- on documents without the leak shape the route list is exactly (path item) × (servers that apply to it), all compiled -/
+theorem routes_effective {d : Doc} {rs : List GRoute} (h : gorillaRoutesL true d = some rs)
+    (hsh : leakShape (inMatchingOrder d.paths) = false) :
+    (∀ r, r ∈ rs ↔ ∃ pd ∈ d.paths, ∃ g, EffSrv d pd g ∧ mkRoute pd g = some r) ∧
+    (∀ pd ∈ d.paths, ∀ g, EffSrv d pd g → ∃ r, mkRoute pd g = some r) := by
+  rw [gorillaRoutes_leak_eq d hsh] at h
+  unfold gorillaRoutesL at h
+  split at h
+  · simp at h
+  · rename_i ds hds
+    have conv : ∀ pd ∈ d.paths, ∀ g, EffSrv d pd g ↔
+        (if pd.servers = [] then g ∈ ds else ∃ l, gMakeServers (SrvRef.path pd.template) pd.servers = some l ∧ g ∈ l) := by
+      intro pd hpd g
+      unfold EffSrv
+      split
+      · exact ⟨fun hg => gMakeServers_get hds hg, fun hg => gMakeServers_mem hds hg⟩
+      · rename_i he
+        constructor
+        · intro hg
+          obtain ⟨l, hl⟩ := gLoop_compiles h pd ((mem_inMatchingOrder _ _).2 hpd) he
+          exact ⟨l, hl, gMakeServers_get hl hg⟩
+        · rintro ⟨l, hl, hgl⟩
+          exact gMakeServers_mem hl hgl
+    refine ⟨?_, ?_⟩
+    · intro r
+      rw [gLoop_fixed_mem h r]
       constructor
-      · intro pd _
-        rw [List.pairwise_map]
-        apply List.Pairwise.imp (R := fun _ _ => True)
-        · intro s1 s2 _ r1 r2 h1 h2
-          rw [(mkRoute_some h1).1, (mkRoute_some h2).1]
-          exact Nat.le_refl _
-        · exact List.pairwise_of_forall (fun _ _ => trivial)
-      · apply List.Pairwise.imp _ (pairwise_inMatchingOrder d.paths)
-        intro p1 p2 hle x hx y hy r1 r2 h1 h2
-        simp only [List.mem_map] at hx hy
-        obtain ⟨s1, _, e1⟩ := hx
-        obtain ⟨s2, _, e2⟩ := hy
-        subst h1 h2
-        rw [(mkRoute_some e1).1, (mkRoute_some e2).1]
-        exact hle
-    rw [List.pairwise_map] at hp
-    exact hp.imp (fun {a b} hab => hab a b rfl rfl)
+      · rintro ⟨pd, hpd, g, hm, hg⟩
+        have hpd' := (mem_inMatchingOrder _ _).1 hpd
+        exact ⟨pd, hpd', g, (conv pd hpd' g).2 hg, hm⟩
+      · rintro ⟨pd, hpd, g, hg, hm⟩
+        exact ⟨pd, (mem_inMatchingOrder _ _).2 hpd, g, hm, (conv pd hpd g).1 hg⟩
+    · intro pd hpd g hg
+      exact gLoop_fixed_built h pd ((mem_inMatchingOrder _ _).2 hpd) g ((conv pd hpd g).1 hg)
+
+/-- what it means that a compiled server `g` and a path template `t` reproduce the request with the extracted
+    variables `b`: the request path is "base path of g + t" with non-empty slash-free values substituted, the request
+    scheme is one of g's schemes, the request host is g's host template with non-empty dot-free values substituted -/
+def Reproduces (g : GSrv) (t : Str) (req : Req) (b : List (Str × Str)) : Prop :=
+  ∃ ptoks pb hb, gparseS (g.base ++ t) = some ptoks ∧ gsubst ptoks pb = some req.path ∧ (∀ p ∈ pb, GoodFor '/' p.2) ∧
+    (g.schemes = [] ∨ req.scheme ∈ g.schemes) ∧
+    ((g.host = [] ∧ hb = []) ∨
+      ∃ htoks, gparseS g.host = some htoks ∧
+        gsubst htoks hb = some (if ':' ∈ g.host then req.host else req.host.takeWhile (· ≠ ':')) ∧ ∀ p ∈ hb, GoodFor '.' p.2) ∧
+    b = hb ++ pb
+
+theorem gRouteMatch_reproduces {pd : PathDecl} {g : GSrv} {r : GRoute} (hmk : mkRoute pd g = some r) {req : Req}
+    {b : List (Str × Str)} (hm : gRouteMatch r req = some b) : Reproduces g pd.template req b := by
+  obtain ⟨_, _, e3, e4, e5⟩ := mkRoute_some hmk
+  unfold gRouteMatch at hm
+  split at hm
+  · simp at hm
+  · rename_i pb hpb
+    obtain ⟨g1, g2⟩ := gmatch_sound '/' _ _ _ hpb
+    split at hm
+    · simp at hm
+    · rename_i hsch
+      have hs : g.schemes = [] ∨ req.scheme ∈ g.schemes := by
+        have hok : schemeOK r req = true := by simpa using hsch
+        simp only [schemeOK, e3, Bool.or_eq_true, decide_eq_true_eq] at hok
+        rcases hok with hok | hok
+        · exact Or.inl hok
+        · exact Or.inr (by simpa using hok)
+      split at hm
+      · rename_i hh
+        simp only [Option.some.injEq] at hm
+        subst hm
+        exact ⟨r.pathToks, pb, [], e4, g1, g2, hs, Or.inl ⟨by rw [← e3]; exact hh, rfl⟩, by simp⟩
+      · split at hm
+        · simp at hm
+        · rename_i hbd hhb
+          simp only [Option.some.injEq] at hm
+          subst hm
+          obtain ⟨k1, k2⟩ := gmatch_sound '.' _ _ _ hhb
+          refine ⟨r.pathToks, pb, hbd, e4, g1, g2, hs, Or.inr ⟨r.hostToks, e5, ?_, k2⟩, rfl⟩
+          simpa [hostFor, e3] using k1
 
 end KinModel.Router
